@@ -244,6 +244,22 @@ func lintDeterminism(c *Ctx, m *Model, g *Graph, fn *ssa.Function, total map[str
 					c.Violate("C10.D8", fk+"#recover", p.Pos(in.Pos()), "recover() in the consensus closure can turn a panicking (rolled back) message into a committed one", nil)
 				}
 			}
+			// D4: method calls on standard-library objects held by long-lived application objects
+			// (a hash.Hash, bytes.Buffer, … kept in a keeper field is mutable state outside the store,
+			// shared between messages and with concurrently served simulations)
+			if !isInit {
+				var recvVal ssa.Value
+				if cc.IsInvoke() {
+					recvVal = cc.Value
+				} else if sc := cc.StaticCallee(); sc != nil && sc.Signature.Recv() != nil && len(cc.Args) > 0 {
+					recvVal = cc.Args[0]
+				}
+				if recvVal != nil {
+					if why, ok := persistent[recvVal]; ok && stdPkgPath(pkg) {
+						c.Violate("C10.D4", fk+"#sharedobject:"+name, p.Pos(in.Pos()), "method "+full+" is called on a standard-library object held by a long-lived application object ("+why+"): its internal state is process-local, survives the message and is shared with concurrent executions", nil)
+					}
+				}
+			}
 			// D7 dropped errors
 			if cls := d7Class(m, g, cc); cls != "" {
 				total["d7_calls"]++
@@ -304,7 +320,29 @@ func isRefType(t types.Type) bool {
 	case *types.Pointer, *types.Map, *types.Slice, *types.Chan:
 		return true
 	}
-	return false
+	return stdStatefulIface(t)
+}
+
+// stdPkgPath: a standard-library package (no dot in the first path element), other than context.
+func stdPkgPath(p string) bool {
+	first := p
+	if i := strings.Index(p, "/"); i >= 0 {
+		first = p[:i]
+	}
+	return p != "" && !strings.Contains(first, ".") && p != "context"
+}
+
+// stdStatefulIface: a named interface of the standard library (hash.Hash, io.Writer, …): a value of
+// such a type held by a keeper is an object with internal state of its own, outside the store.
+func stdStatefulIface(t types.Type) bool {
+	n, ok := types.Unalias(t).(*types.Named)
+	if !ok || n.Obj().Pkg() == nil {
+		return false
+	}
+	if _, isIface := n.Underlying().(*types.Interface); !isIface {
+		return false
+	}
+	return stdPkgPath(n.Obj().Pkg().Path())
 }
 
 // persistentRefs computes SSA values of fn that are references (pointer, map,
